@@ -171,6 +171,9 @@ class MementoFunction(MementoFunctionBase):
         """Reference to the function"""
 
         self._update_dependencies()
+        if self._fn_reference is None:
+            # e.g. a clone that inherited an up-to-date calculated version
+            self._update_fn_reference()
         return self._fn_reference
 
     def supports_kwargs(self) -> bool:
@@ -349,7 +352,7 @@ class MementoFunction(MementoFunctionBase):
             fn=fn or self.fn,
             src_fn=src_fn or self.src_fn,
             cluster_name=cluster_name or self.cluster_name,
-            version=version or self.version(),
+            version=version or self.explicit_version,
             calculated_version=calculated_version or self._calculated_version,
             context=context or self.context,
             partial_args=partial_args or self.partial_args,
@@ -365,6 +368,9 @@ class MementoFunction(MementoFunctionBase):
         # Remember where it came from so that dependency validation still applies to calls
         # made through the clone.
         clone._cloned_from = self._cloned_from or self
+        # An automatically versioned function stays automatically versioned when cloned: the
+        # clone shares the rules that notice later changes to what the function depends on.
+        clone._hash_rules = self._hash_rules
         return clone
 
     def call(self, *args, **kwargs):
